@@ -1,24 +1,25 @@
 SPECIFICATION MCSpec
 CONSTANTS
-  Groups = {"g1","g2"}
-  Names = {"s1","s2"}
-  Dev = {}
+  Groups = {"g1"}
+  Names = {"s1"}
+  Dev = {"MemRollbackStealsNostrId","MemOffsetOverflows"}
+  KnownFinding <- Silent
   Cap = 0
   MaxLimit = 10000
   DefLimit = 1000
-  Acts = {"groups","relays","snaps"}
-  Nids = {"n1","n2"}
+  Acts = {"groups","msgs","reads"}
+  Nids = {}
   Epochs = {1}
   Ptrs = {}
   Relays = {"r1"}
   SecEpochs = {0}
   SecVals = {1}
-  MsgIds = {1}
+  MsgIds = {1,2,3}
   CAs = {10}
-  PAs = {20}
-  MsgEpochs = {}
+  PAs = {20,21}
+  MsgEpochs = {1}
   MsgStates = {"processed"}
-  Tags = {""}
+  Tags = {"", "abc"}
   Wrappers = {1}
   ProcStates = {"failed"}
   ProcEpochs = {}
@@ -33,11 +34,12 @@ CONSTANTS
   GlobKeys = {"k1"}
   Ats = {1}
   Mins = {2}
-  Lims = {1}
-  Offs = {0}
-  Subs = {"abc"}
+  Lims = {0,1,2,10000,10001}
+  Offs = {0,1,2,1000000}
+  Subs = {"abc","ABC","zz"}
 VIEW MCView
 INVARIANT TypeInv
-INVARIANT InvC10Plain
-PROPERTY PropC09Plain
+INVARIANT InvC10
+INVARIANT InvC18
+PROPERTY PropC09
 CHECK_DEADLOCK FALSE
